@@ -231,6 +231,35 @@ pub fn tree_shake(bytecode: Bytecode, entry: usize) -> Bytecode {
         }
     }
 
+    // A process value is type-tested through the `Type::Process` entry that matches its
+    // function's (receive, result) pair, looked up when the compatibility table is built — just
+    // as a tuple value needs its `Type::Tuple` entry. Keep that entry for every kept function,
+    // or a pid of a spawned function drops out of every `IsType` set after shaking.
+    for &fn_id in &used_functions {
+        let Some(function) = bytecode.functions.get(fn_id) else {
+            continue;
+        };
+        let Some(Type::Callable {
+            result, receive, ..
+        }) = bytecode.types.get(function.type_id)
+        else {
+            continue;
+        };
+        let process_type = bytecode.types.iter().position(|t| {
+            matches!(t, Type::Process { send, receive: r } if *send == Some(*receive) && *r == Some(*result))
+        });
+        if let Some(type_id) = process_type {
+            collect_type_refs(
+                type_id,
+                &bytecode.types,
+                &bytecode.tuples,
+                &mut used_types,
+                &mut used_tuples,
+                &mut used_resources,
+            );
+        }
+    }
+
     // Collect types from builtins. `collect_type_refs` descends through tuples into their field
     // types, so the type/tuple closure is complete after this — no separate tuple-field pass is
     // needed.
